@@ -533,7 +533,9 @@ func drive(h Harness, specs []Spec, tier string, knownList []xplore.Finding, kno
 			if len(frontier) == 0 {
 				sum.Closed = true
 			}
-			if sum.DepthDone < d && !sum.Closed && len(vios) == 0 {
+			if sum.DepthDone < d && !sum.Closed {
+				// budget ran out, or the search stopped at the first violating
+				// depth (shortest counterexamples first): not the whole space
 				exhaustive = false
 			}
 			sum.States = int64(len(seen))
@@ -544,6 +546,9 @@ func drive(h Harness, specs []Spec, tier string, knownList []xplore.Finding, kno
 		summaries = append(summaries, sum)
 		fmt.Printf("  spec %-40s states=%d transitions=%d depth=%d/%d closed=%v\n", sum.Name, sum.States, sum.Transitions, sum.DepthDone, sum.Depth, sum.Closed)
 		if len(vios) > 0 {
+			if si < len(specs)-1 {
+				exhaustive = false // the remaining specs were not run
+			}
 			break
 		}
 	}
